@@ -116,7 +116,7 @@ def gen_mod(rng, spec, protected, counter):
     protected: variables that carry inputs in some situation (not annualised,
     see DESIGN 4.5)."""
     vs = spec["variables"]
-    kind = weighted(rng, [("add", 2), ("update", 3), ("replace", 2), ("neutralize", 2), ("annualize", 1.5), ("param", 2)])
+    kind = weighted(rng, [("add", 2), ("update", 3), ("replace", 2), ("neutralize", 2), ("annualize", 0.6), ("param", 2)])
     plain = [v for v in vs if not v.get("neutralized") and not v.get("annualized")]
     if kind == "add" or not plain:
         name = f"n{counter[0]}"
@@ -187,12 +187,14 @@ def generate(seed: int, tier: str) -> dict:
     parents = {"S0": None}
     kinds = {"S0": "base"}
     has_derivative = set()
+    dropped = set()
     evaluated = set()
     counter = [0]
     ops = []
     for _ in range(orr.randint(4, 10 if tier == "quick" else 18)):
         r = orr.random()
         ids = list(specs)
+        ids = [i for i in ids if i not in dropped]
         if r < 0.2:
             src = pick(orr, ids)
             new = f"S{len(specs)}"
@@ -230,8 +232,17 @@ def generate(seed: int, tier: str) -> dict:
                 continue  # in-place parameter edits only right after the copy was made (DESIGN 4.5)
             ops.append({"actor": "M", "do": ["mutate", sid, m]})
             specs[sid] = apply_mod_to_spec(specs[sid], m)
+        elif r < 0.72:
+            # a derived system nobody derives from is discarded (and collected): what
+            # is derived afterwards must not inherit anything from it
+            cands = [i for i in ids if i != "S0" and i not in has_derivative and i not in dropped]
+            if not cands:
+                continue
+            sid = pick(orr, cands)
+            dropped.add(sid)
+            ops.append({"actor": "env", "do": ["drop", sid]})
         elif r < 0.9:
-            sid = pick(orr, ids)
+            sid = pick(orr, [i for i in ids if i not in dropped])
             ops.append({"actor": pick(orr, ["E1", "E2"]), "do": ["evaluate", sid, orr.randrange(len(battery))]})
             evaluated.add(sid)
         else:
@@ -378,14 +389,22 @@ def run(scn) -> Result:
     H = History()
     world = World(scn["world"])
     scratch_worlds = []
+    from .. import seams
+
+    env = seams.Env(ids=seams.SimId())  # S6: identities of discarded systems / trees are reused
+    env.install()
     try:
         with warnings.catch_warnings():
             warnings.simplefilter("ignore")
-            return _run(scn, world, res, H, scratch_worlds)
+            out = _run(scn, world, res, H, scratch_worlds)
+            if env.ids.reused:
+                res.count("fault:identity_reused", env.ids.reused)
+            return out
     except RunTooBig:
         res.discarded = "too big"
         return res
     finally:
+        seams.Env.uninstall()
         world.close()
         for w in scratch_worlds:
             w.close()
@@ -519,6 +538,17 @@ def _run(scn, world, res, H, scratch_worlds):
                 fps[sid] = fingerprint(systems[sid], world, scn)
                 if check_derived(step, sid, ["mutate", sid, m[0]]):
                     derived_ok += 1
+        elif kind == "drop":
+            _, sid = do
+            if sid not in systems or sid == "S0" or any(p == sid for p in parents.values()):
+                continue
+            del systems[sid], fps[sid]
+            import gc
+
+            gc.collect()  # FINALIZE: systems sit in reference cycles with their entities
+            res.count("fault:system_dropped")
+            H.add("env", "drop", [sid])
+            check_untouched(step, None, do)
         elif kind == "evaluate":
             _, sid, bi = do
             if sid not in systems:
